@@ -265,6 +265,9 @@ use gneiss_mqtt::client::config::*;
 use gneiss_mqtt::error::{GneissError, GneissResult};
 use std::fmt::Write;
 
+#[cfg(feature = "verif")]
+pub mod verif;
+
 #[cfg(feature = "tokio-websockets")]
 use aws_credential_types::provider::ProvideCredentials;
 #[cfg(feature = "tokio-websockets")]
